@@ -542,8 +542,10 @@ class _Generator(Generator):
             '{} = 0x{:02x};'.format(unique_mask, 0x80 >> (len(type_.additions) % 8)),
             '{} = 0;'.format(unique_unknown_addition_bits),
             '',
-            'for (i = {}; i < {}; i++) {{'.format(len(type_.additions),
-                                                  unique_addition_bits),
+            'for ({i} = {first}; {i} < {bits}; {i}++) {{'.format(
+                i=unique_i,
+                first=len(type_.additions),
+                bits=unique_addition_bits),
             '',
             '    if ({} == 0u) {{'.format(unique_mask),
             '        decoder_read_bytes(decoder_p, &{}, 1);'.format(
